@@ -63,6 +63,9 @@ def gen(rng, tier, index):
         plan["tol"] = 1e-8
         plan["num_per_cell"] = str(rng.choice(["Auto", "3", "4"]))
         plan["ops"] = [{"what": "rod"}] + ([{"what": "rod"}] if rng.random() < 0.3 else [])
+        if rng.random() < 0.3:
+            # fault: an export that aborts part-way (its contribution raises at frame `at`), then business as usual
+            plan["ops"].insert(int(rng.integers(len(plan["ops"]))), {"what": "failing:rod", "at": int(rng.integers(0, 4))})
         return plan
     scene = gen_contact_scene(rng, nspheres=int(rng.integers(1, 4)), allow_s2s=False)
     for c in scene["contacts"][:]:
@@ -111,6 +114,9 @@ def gen(rng, tier, index):
             ops.append({"what": targets[int(rng.integers(len(targets)))], "file_name": None if rng.random() < 0.6 else str(rng.choice(["a", "b"]))})
     if rng.random() < 0.4 and ops:
         ops.append(dict(ops[0]))  # the same thing twice into one folder
+    if rng.random() < 0.3:
+        # fault: an export that aborts part-way (its contribution raises at frame `at`), then business as usual
+        ops.insert(int(rng.integers(len(ops))), {"what": "failing:" + targets[int(rng.integers(len(targets)))], "at": int(rng.integers(0, 4))})
     plan["ops"] = ops
     return plan
 
@@ -260,6 +266,26 @@ def frames_of(e, sol, out, label):
     return frames
 
 
+class InjectedExportFailure(RuntimeError):
+    pass
+
+
+class FailingContr:
+    """Fault F5b: a contribution whose export raises at its ``at``-th frame (a user-defined export that hits a
+    state it cannot draw, a missing field of the solution, a full disk ...).  Until then it behaves like the
+    wrapped real contribution."""
+
+    def __init__(self, inner, at):
+        self.inner, self.at, self.calls = inner, at, 0
+        self.name = inner.name
+
+    def export(self, sol_i, **kwargs):
+        self.calls += 1
+        if self.calls > self.at:
+            raise InjectedExportFailure(f"injected export failure at frame {self.at}")
+        return self.inner.export(sol_i, **kwargs)
+
+
 # ------------------------------------------------------------------ executor
 def execute(plan, out, log):
     from cardillo.visualization import Export
@@ -320,6 +346,18 @@ def execute(plan, out, log):
                 what = op["what"]
                 before = {p.name for p in edir.glob("*.pvd")}
                 label = what
+                if what.startswith("failing:"):
+                    inner = rod if what == "failing:rod" else _contr_of(B, what[8:])
+                    try:
+                        e.export_contr(FailingContr(inner, op["at"]))
+                        out["probes"]["failing_export_completed"] += 1  # fewer frames than `at`
+                    except InjectedExportFailure:
+                        out["faults"]["F5b_export_aborted"] += 1
+                    except Exception as ex:
+                        out["violations"].append(violation("export_crash", "after_injected_failure", f"export op {k} ({what}) raised {type(ex).__name__}: {ex} instead of passing the contribution's own error on"))
+                        return
+                    log.ev("export_aborted", k, what)
+                    continue
                 try:
                     if what == "rod":
                         e.export_contr(rod)
